@@ -20,6 +20,10 @@
 //	          conv/to/acc read every value again from a Clone and from the script's copy().
 //	eval      tengo.Eval(expr, params) == `__res__ := (expr)` run by hand == the value known by construction; expressions
 //	          over all binary operators and '%'-laden literals / parameters (evalgen.go); correspondence `api-eval`.
+//	lit / eval-lit / api-lit        scripts holding literals of different types with colliding printed forms (literals.go).
+//	share / to-share / eval-share / api-share   values in which one array / map object is reachable along several paths
+//	          (`[row, row]`, `{x: cfg, y: cfg}`, []tengo.Object{o, o}), read back through every route; expected by a heap
+//	          interpreter written in the harness (share.go).
 package main
 
 import (
@@ -301,13 +305,15 @@ func accExpected(o tengo.Object, a string) string {
 	case *tengo.Array:
 		row["String"] = ""
 		row["Bool"] = "(bool " + lib.B(len(v.Value) > 0) + ")"
-		if len(v.Value) > 0 {
+		if len(v.Value) > 0 && a == "Array" { // (computed only when asked for: the value may be large)
 			row["Array"] = "(slice " + canonG(goOfObjects(v.Value)) + ")"
 		}
 	case *tengo.Map:
 		row["String"] = ""
 		row["Bool"] = "(bool " + lib.B(len(v.Value) > 0) + ")"
-		row["Map"] = "(map " + canonG(goOfObjectMap(v.Value)) + ")"
+		if a == "Map" {
+			row["Map"] = "(map " + canonG(goOfObjectMap(v.Value)) + ")"
+		}
 	case *tengo.Time:
 		row["String"] = "(str " + lib.HexS(v.Value.String()) + ")"
 		row["Bool"] = "(bool " + lib.B(!v.Value.IsZero()) + ")"
@@ -503,7 +509,7 @@ func checkEvalOne(seed uint64, expr string, params map[string]interface{}, pinne
 			if gerr != nil {
 				obs = "error: " + gerr.Error()
 			}
-			res.Violate(lib.Violation{Signature: "eval-value-not-the-expression-value", Stream: "eval", Input: in,
+			res.Violate(lib.Violation{Signature: "eval-value-not-the-expression-value", Stream: evalStream, Input: in,
 				Observed: obs, Expected: clip(canonG(pinnedWant), 300), Oracle: "value the expression has by construction (string/char literals are themselves, + concatenates, int % int is Go's remainder, format verbs %d %s %%)"})
 			return
 		}
@@ -634,7 +640,9 @@ func main() {
 	res.Rule = "conv: Go values from a recursive generator over every case of FromInterface's switch plus ~25 unsupported types, limits lowered in 1/3 of the cases; " +
 		"non-trivial = nested container or conversion error. api: histories of 4..30 calls over 23 scripts with up to 3 Script handles and any number of Compiled/clone handles; " +
 		"non-trivial = contains Set, Clone or a failing Run; distinct by the printed history. api-bool: the same over 13+2 scripts that assign/copy/compare booleans with bool-heavy values (+ fixed corpus). " +
-		"acc: every accessor on every generated object (also after Clone / copy()). eval: generated expressions over all binary operators, '%'-laden string/char literals and format calls (+29 fixed shapes, + fixed corpus) x random params."
+		"acc: every accessor on every generated object (also after Clone / copy()). eval: generated expressions over all binary operators, '%'-laden string/char literals and format calls (+29 fixed shapes, + fixed corpus) x random params. " +
+		"share / to-share / eval-share / api-share: values in which one array / map / error object is reachable along several paths (scripts that name a variable several times inside a value, host-built object graphs), " +
+		"read back through every handle of Compile / Clone / Run / Set histories, ToInterface, NewVariable, FromInterface and Eval; expected by a heap interpreter written in the harness."
 	if f.Replay != "" {
 		replay(f.Replay)
 		res.Write(f.Out)
@@ -669,6 +677,19 @@ func main() {
 	}
 	for i, n := 0, f.Scale(400, 15000); i < n; i++ {
 		apiLitCase(rng.U64())
+	}
+	// round 10: values in which one array / map object is reachable along several paths (share.go)
+	for i, n := 0, f.Scale(600, 40000); i < n; i++ {
+		shareCase(rng.U64())
+	}
+	for i, n := 0, f.Scale(800, 30000); i < n; i++ {
+		toShareCase(rng.U64())
+	}
+	for i, n := 0, f.Scale(500, 15000); i < n; i++ {
+		evalShareCase(rng.U64())
+	}
+	for i, n := 0, f.Scale(300, 10000); i < n; i++ {
+		apiShareCase(rng.U64())
 	}
 	maxLen := f.Scale(3, 4)
 	total := 0
@@ -726,6 +747,7 @@ func corpus() {
 	}
 	boolCorpus()
 	litCorpus()
+	shareCorpus()
 	for _, t := range []*TV{{K: "b", B: true}, {K: "b"}, {K: "ia", Kids: []*TV{tb(true), tb(false)}}, {K: "u"}, {K: "a"}, {K: "m"}, {K: "ia"}, {K: "im"}, {K: "y"}, {K: "s"}, {K: "t", I: -62135596800}, {K: "f", F: nanBits},
 		{K: "f", F: fbits(2.9)}, {K: "f", F: fbits(-2.9)}, {K: "i", I: 1<<32 + 65}, {K: "s", S: []byte("12")}, {K: "s", S: []byte("1e3")}, {K: "s", S: []byte(" 1")},
 		{K: "e", Kids: []*TV{{K: "e", Kids: []*TV{{K: "s", S: []byte("in")}}}}}, {K: "uf", I: 1}, {K: "o", I: 1}} {
@@ -790,6 +812,14 @@ func replay(path string) {
 			evalLitCase(in.CaseSeed)
 		case in.Stream == "api-lit" || in.Stream == "api-lit-absspec":
 			apiLitCase(in.CaseSeed)
+		case in.Stream == "share":
+			shareCase(in.CaseSeed)
+		case in.Stream == "to-share":
+			toShareCase(in.CaseSeed)
+		case in.Stream == "eval-share":
+			evalShareCase(in.CaseSeed)
+		case in.Stream == "api-share":
+			apiShareCase(in.CaseSeed)
 		case in.Stream == "api-bool" || in.Stream == "api-bool-absspec":
 			apiBoolCase(in.CaseSeed)
 		case strings.HasPrefix(in.Stream, "api-eval") || in.Stream == "eval":
